@@ -64,7 +64,12 @@ def lattice_lines(lat, objects=None, properties=None, limit=60, heavy=True):
                                                 [ref(u) for u in c.upper_neighbors],
                                                 [ref(l) for l in c.lower_neighbors],
                                                 [ref(a) for a in c.atoms],
-                                                c.lattice is lat))))
+                                                c.lattice is lat,
+                                                # differential use only: a reloaded lattice must hand out the same
+                                                # kinds of containers as a recomputed one
+                                                [type(getattr(c, a)).__name__ for a in
+                                                 ('upper_neighbors', 'lower_neighbors', 'atoms', 'objects',
+                                                  'properties', 'extent', 'intent')]))))
     add('infimum ' + canon(call(lambda: ref(lat.infimum))))
     add('supremum ' + canon(call(lambda: ref(lat.supremum))))
     add('atoms ' + canon(call(lambda: [ref(a) for a in lat.atoms])))
